@@ -51,6 +51,17 @@ def oracle(spec, obj):
             problems.append("second write is not byte-identical")
     except Exception as exc:                                            # noqa
         problems.append("re-read manifest cannot be written: %s" % type(exc).__name__)
+    # the same cycle through ONE open file handle: dump(handle) then load(handle), no seek by the caller
+    import io
+    handle = io.StringIO()
+    try:
+        obj.dump(handle)
+        again = pi.Images()
+        again.load(handle)
+        if diff(B.observe(again), want):
+            problems.append("dump(handle) + load(same handle) gives a different manifest")
+    except Exception as exc:                                            # noqa
+        problems.append("dump(handle) + load(same handle) failed: %s" % type(exc).__name__)
     return ("bad" if problems else "ok"), problems
 
 
